@@ -866,8 +866,8 @@ class Engine(object):
                     loc[p] = self.eval(a.defaults[di], defaults_env)
         return loc
 
-    def call_function(self, func, args, kwargs):
-        if func in self.overrides:
+    def call_function(self, func, args, kwargs, bypass=False):
+        if func in self.overrides and not bypass:
             return self.overrides[func](self, *args, **kwargs)
         fdef = self.sources.funcdef(func)
         self.functions_interpreted.add("%s.%s" % (func.__module__, func.__qualname__))
@@ -1018,6 +1018,15 @@ class Engine(object):
 
     def assign(self, t, v, env):
         if isinstance(t, ast.Name):
+            if t.id in env.locals.get("__globals_declared__", ()):
+                raise Unsupported("assignment to module global %s (side effect outside the verified state)" % t.id)
+            if t.id in env.locals.get("__nonlocals_declared__", ()):
+                e2 = env.parent
+                while e2 is not None:
+                    if t.id in e2.locals:
+                        e2.locals[t.id] = v
+                        return
+                    e2 = e2.parent
             env.locals[t.id] = v
         elif isinstance(t, (ast.Tuple, ast.List)):
             if isinstance(v, Sym):
@@ -1073,7 +1082,18 @@ class Engine(object):
 
     def st_Try(self, st, env):
         if st.finalbody:
-            raise Unsupported("try/finally at line %d" % st.lineno)
+            inner = ast.Try(body=st.body, handlers=st.handlers, orelse=st.orelse, finalbody=[])
+            ast.copy_location(inner, st)
+            try:
+                if st.handlers or st.orelse:
+                    self.st_Try(inner, env)
+                else:
+                    self.exec_block(st.body, env)
+            except (Raised, _Return, _Break, _Continue):
+                self.exec_block(st.finalbody, env)
+                raise
+            self.exec_block(st.finalbody, env)
+            return
         try:
             self.exec_block(st.body, env)
         except Raised as r:
@@ -1149,6 +1169,14 @@ class Engine(object):
         if st.decorator_list:
             raise Unsupported("decorated nested function %s" % st.name)
         env.locals[st.name] = Closure(st, env, st.name)
+
+    def st_Global(self, st, env):
+        gl = env.locals.setdefault("__globals_declared__", set())
+        gl.update(st.names)
+
+    def st_Nonlocal(self, st, env):
+        nl = env.locals.setdefault("__nonlocals_declared__", set())
+        nl.update(st.names)
 
     def st_Import(self, st, env):
         raise Unsupported("import inside function")
@@ -1253,6 +1281,11 @@ class Engine(object):
                     x = self.concretize(x)
                 parts.append(format(x))
         return "".join(parts)
+
+    def ex_NamedExpr(self, n, env):
+        v = self.eval(n.value, env)
+        self.assign(n.target, v, env)
+        return v
 
     def ex_Lambda(self, n, env):
         return Closure(n, env)
